@@ -376,6 +376,48 @@ func (rw *rewriter) file(p *packages.Package, name string, f *ast.File) {
 				}
 			}
 		case *ast.CallExpr:
+			// d.Readdirnames(n) / d.ReadDir(n) / d.Readdir(n) on an *os.File: the order in which a
+			// directory lists its entries belongs to the file system, i.e. to the simulator
+			if sel, ok := n.Fun.(*ast.SelectorExpr); ok {
+				if s := info.Selections[sel]; s != nil && s.Kind() == types.MethodVal {
+					if fn, ok := s.Obj().(*types.Func); ok && fn.Pkg() != nil && fn.Pkg().Path() == "os" {
+						recv := s.Recv()
+						if p, ok := recv.(*types.Pointer); ok {
+							recv = p.Elem()
+						}
+						if nt, ok := recv.(*types.Named); ok && nt.Obj().Name() == "File" {
+							if to, ok := map[string]string{"Readdirnames": "FileReaddirnames", "ReadDir": "FileReadDir", "Readdir": "FileReaddir"}[fn.Name()]; ok {
+								n.Args = append([]ast.Expr{sel.X}, n.Args...)
+								n.Fun = simrtSel(to)
+								used = true
+								rw.table.Seams["fs"]++
+								return true
+							}
+						}
+					}
+				}
+			}
+			// an address used as a value (map key, hash, ordering): whether two objects ever share one
+			// depends on the garbage collector and the allocator, which the simulator does not own
+			if sel, ok := n.Fun.(*ast.SelectorExpr); ok {
+				if s := info.Selections[sel]; s != nil && s.Kind() == types.MethodVal {
+					if fn, ok := s.Obj().(*types.Func); ok && fn.Pkg() != nil && fn.Pkg().Path() == "reflect" {
+						switch fn.Name() {
+						case "Pointer", "UnsafePointer", "UnsafeAddr":
+							rw.unmodelled(n, "reflect.Value."+fn.Name()+" (address used as a value)")
+						}
+					}
+				}
+			}
+			if tv, ok := info.Types[n.Fun]; ok && tv.IsType() && len(n.Args) == 1 {
+				if b, ok := tv.Type.Underlying().(*types.Basic); ok && b.Kind() == types.Uintptr {
+					if at, ok := info.Types[n.Args[0]]; ok {
+						if ab, ok := at.Type.Underlying().(*types.Basic); ok && ab.Kind() == types.UnsafePointer {
+							rw.unmodelled(n, "uintptr(unsafe.Pointer) (address used as a value)")
+						}
+					}
+				}
+			}
 			// fmt.Sprintf / fmt.Errorf with a %p verb: addresses in text go through the simulator
 			if sel, ok := n.Fun.(*ast.SelectorExpr); ok && len(n.Args) >= 1 {
 				if fo, ok := info.Uses[sel.Sel].(*types.Func); ok && fo.Pkg() != nil && fo.Pkg().Path() == "fmt" {
